@@ -3,10 +3,15 @@
   `exchangeBatch` with relations (callback `nil`, no observers) in normal form, and one table move
   under the invariants of the relation fragment.
 
-  * `moveStepX`, `findLoopX`, `exchangeTable_rel_eq`, `exchangeBatch_rel_eq` — without observers and
-    callback the batch is: `Lock`, the table selection, the lookup loop (`findOrCreateTable` for every
-    non-empty selected table), the move loop (`exchangeTable` — which flags the targets of `rels` —
-    for every collected move), `Unlock`;
+  * `moveStepX`, `findLoopX`, `exchangeTable_rel_eq`, `exchangeBatch_rel_eq_planFirst` — without
+    observers and callback the batch is: the table selection, the lookup loop (`findOrCreateTable`
+    for every non-empty selected table), `Lock` (since the repair of defect D27 the lock is taken
+    only after the lookup loop: `exchangeBatch_rel_findLoop_panic` — a panic of that loop leaves the
+    lock as it was), the move loop (`exchangeTable` — which flags the targets of `rels` — for every
+    collected move), `Unlock`;  `exchangeBatch_rel_eq` — the same with `Lock` FIRST (the order
+    before the repair): still an equation of the operation, because selection and lookup loop
+    neither read nor write the lock (`frames_findLoopX`); the specifications downstream are proved
+    from this form;
   * `MoveSt` — the invariant of the move loop (`RelInv`, `IdxInv`, `PLink`, `FreeEmpty`, flags up to
     `rels`); `TableMovedRel` / `MoveSt.tableMoved` — one `exchangeTable src dst rels` between two
     different existing tables, `dst` not free: the invariant is kept; the entities of `src` sit in
@@ -114,8 +119,70 @@ theorem loop2X (rels : List RelID) (bts : List BatchTable) (s : List BatchTable)
     ⟨s ++ [BatchTable.mk b.oldT b.newT (w.tbl b.newT).len (w.tbl b.oldT).len],
       by simp only [M.bind_apply, exchangeTable_rel_eq, M.pure_apply, moveStepX]⟩) bts s w
 
+/-- the lookup loop neither reads nor writes observers, log and lock -/
+theorem frames_findLoopX (add rem : List Comp) (rels : List RelID) :
+    ∀ (ts : List Nat) (s : Bool × List BatchTable), Frames (findLoopX add rem rels ts s)
+  | [], s => Frames.pure s
+  | t :: ts, s => by
+    intro w o lg lk
+    simp only [findLoopX]
+    have h1 : (w.reframe o lg lk).tbl t = w.tbl t := rfl
+    have h2 : ∀ a, (w.reframe o lg lk).arch a = w.arch a := fun _ => rfl
+    rw [h1, h2]
+    split
+    · exact frames_findLoopX add rem rels ts s w o lg lk
+    · rw [frames_findOrCreateTable t _ add rem rels w o lg lk]
+      cases findOrCreateTable t (w.arch (w.tbl t).arch).mask add rem rels w with
+      | panic k s' => rfl
+      | ok x w' => exact frames_findLoopX add rem rels ts _ w' o lg lk
+
+/-- without observers and callback, `exchangeBatch` with relations is — in the order in which it
+    runs since the repair of defect D27 —: the table selection, the lookup loop, `Lock`, the move
+    loop, `Unlock` -/
+theorem exchangeBatch_rel_eq_planFirst (run : ProbeRunner) (fo : FilterObj) (extra : List RelID)
+    (add rem : List Comp) (rels : List RelID) (w : World) (hl : w.isLocked = false)
+    (hne : (add.isEmpty && rem.isEmpty) = false) {ts : List Nat}
+    (hts : getBatchTables fo extra w = .ok ts w)
+    {rr : Bool} {bts : List BatchTable} {w1 : World}
+    (hfind : findLoopX add rem rels ts (false, []) w = .ok (rr, bts) w1)
+    {l' : Lock} {b : Nat} (hlk : w1.locks.lock = some (l', b))
+    (hno : ∀ (evt : Nat), w1.obs.hasObservers evt = false) :
+    exchangeBatch run fo extra add rem rels none w =
+      unlock b (bts.foldl (moveStepX rels) { w1 with locks := l' }) := by
+  have hno1 : ∀ (evt : Nat), ({ w1 with locks := l' } : World).obs.hasObservers evt = false := hno
+  have hno2 : ∀ (evt : Nat),
+      (bts.foldl (moveStepX rels) { w1 with locks := l' }).obs.hasObservers evt = false := by
+    intro evt; rw [foldl_moveStepX_obs]; exact hno evt
+  obtain ⟨s2, h2⟩ := loop2X rels bts [] { w1 with locks := l' }
+  cases hr : rem.isEmpty <;> cases ha : add.isEmpty <;> rw [hr, ha] at hne <;>
+  first
+  | exact absurd hne (by decide)
+  | (unfold exchangeBatch
+     simp only [M.bind_apply, checkLocked_unlocked w hl, M.assert_apply, hr, ha, Bool.and_self,
+      Bool.and_false, Bool.false_and, Bool.not_false, Bool.not_true, if_true, hts,
+      forIn_findLoopX, hfind, lock_ok hlk, M.get_apply, hno1, Bool.false_eq_true, if_false, h2,
+      Bool.and_false, hno2])
+
+/-- when the lookup loop panics, `exchangeBatch` panics with the same class and the same state:
+    the lock has not been taken (the repair of defect D27) -/
+theorem exchangeBatch_rel_findLoop_panic (run : ProbeRunner) (fo : FilterObj) (extra : List RelID)
+    (add rem : List Comp) (rels : List RelID) (vals : Option (List (Comp × Val))) (w : World)
+    (hl : w.isLocked = false) (hne : (add.isEmpty && rem.isEmpty) = false) {ts : List Nat}
+    (hts : getBatchTables fo extra w = .ok ts w) {k : PanicKind} {w1 : World}
+    (hfind : findLoopX add rem rels ts (false, []) w = .panic k w1) :
+    exchangeBatch run fo extra add rem rels vals w = .panic k w1 := by
+  cases hr : rem.isEmpty <;> cases ha : add.isEmpty <;> rw [hr, ha] at hne <;>
+  first
+  | exact absurd hne (by decide)
+  | (unfold exchangeBatch
+     simp only [M.bind_apply, checkLocked_unlocked w hl, M.assert_apply, hr, ha, Bool.and_self,
+      Bool.and_false, Bool.false_and, Bool.not_false, Bool.not_true, if_true, hts,
+      forIn_findLoopX, hfind])
+
 /-- without observers and callback, `exchangeBatch` with relations is: `Lock`, the table selection,
-    the lookup loop, the move loop, `Unlock` -/
+    the lookup loop, the move loop, `Unlock` — the order before the repair of defect D27; still an
+    equation of the repaired operation, because the table selection and the lookup loop neither
+    read nor write the lock (`exchangeBatch_rel_eq_planFirst` is the order in which it runs) -/
 theorem exchangeBatch_rel_eq (run : ProbeRunner) (fo : FilterObj) (extra : List RelID)
     (add rem : List Comp) (rels : List RelID) (w : World) (hl : w.isLocked = false)
     (hne : (add.isEmpty && rem.isEmpty) = false) {l' : Lock} {b : Nat}
@@ -126,17 +193,19 @@ theorem exchangeBatch_rel_eq (run : ProbeRunner) (fo : FilterObj) (extra : List 
     (hno : ∀ (evt : Nat), w1.obs.hasObservers evt = false) :
     exchangeBatch run fo extra add rem rels none w =
       unlock b (bts.foldl (moveStepX rels) w1) := by
-  have hno2 : ∀ (evt : Nat), (bts.foldl (moveStepX rels) w1).obs.hasObservers evt = false := by
-    intro evt; rw [foldl_moveStepX_obs]; exact hno evt
-  obtain ⟨s2, h2⟩ := loop2X rels bts [] w1
-  cases hr : rem.isEmpty <;> cases ha : add.isEmpty <;> rw [hr, ha] at hne <;>
-  first
-  | exact absurd hne (by decide)
-  | (unfold exchangeBatch
-     simp only [M.bind_apply, checkLocked_unlocked w hl, M.assert_apply, hr, ha, Bool.and_self,
-      Bool.and_false, Bool.false_and, Bool.not_false, Bool.not_true, if_true, lock_ok hlk, hts,
-      forIn_findLoopX, hfind, M.get_apply, hno, Bool.false_eq_true, if_false, h2, Bool.and_false,
-      hno2])
+  have hts' : getBatchTables fo extra w = .ok ts w :=
+    ((frames_getBatchTables fo extra).of_reframe_ok (w := w) (o := w.obs) (lg := w.log) (lk := l')
+      hts).1
+  obtain ⟨hfind', hw1⟩ := (frames_findLoopX add rem rels ts (false, [])).of_reframe_ok
+    (w := w) (o := w.obs) (lg := w.log) (lk := l') hfind
+  have hlocks : (w1.reframe w.obs w.log w.locks).locks.lock = some (l', b) := hlk
+  have hobs : w1.obs = w.obs := congrArg (·.obs) hw1
+  have hno' : ∀ evt : Nat, (w1.reframe w.obs w.log w.locks).obs.hasObservers evt = false :=
+    fun evt => by rw [← hobs]; exact hno evt
+  have := exchangeBatch_rel_eq_planFirst run fo extra add rem rels w hl hne hts' hfind' hlocks hno'
+  rw [this]
+  have e : ({ w1.reframe w.obs w.log w.locks with locks := l' } : World) = w1 := hw1.symm
+  rw [e]
 
 theorem exchangeTableW_more (w : World) (oldT newT : Nat) :
     (exchangeTableW w oldT newT).relationArchetypes = w.relationArchetypes ∧
